@@ -65,6 +65,9 @@ namespace GeographicLib {
     typedef Math::real real;
 
     enum { num_ = 25 }; // Max depth required for sncndn; probably 5 is enough.
+    // Max trips through the duplication loops for Carlson's integrals; 7
+    // suffice for finite arguments.
+    enum { maxtrips_ = 50 };
     real _k2, _kp2, _alpha2, _alphap2, _eps;
     real _kKc, _eEc, _dDc, _pPic, _gGc, _hHc;
   public:
